@@ -77,3 +77,10 @@ fn policy_sort() {
     let p2 = and(or(P::After(2), P::After(1)), P::Older(3)).sorted();
     assert_eq!(p1, p2);
 }
+
+// ---- C17 fixes 0bd95cd, 15d0b8c, 18edc43, 5cafaea (fail with the parent of each commit) ----
+#[test] fn c17_assertl() { roundtrip("main := comp (pair (injl unit) unit) (assertl unit #{unit})"); }
+#[test] fn c17_assertr() { roundtrip("main := comp (pair (injr unit) unit) (assertr #{unit} unit)"); }
+#[test] fn c17_fail() { roundtrip("main := comp (pair (injl unit) unit) (case unit (fail 0x01020304050607080910111213141516))"); }
+#[test] fn c17_repeated_inline() { roundtrip("main := comp (pair (injl unit) unit) (case unit unit)"); }
+#[test] fn c17_collision() { roundtrip("ut1 := iden\nmain := comp (pair ut1 unit) unit"); }
